@@ -546,8 +546,10 @@ class Interp:
             return self.call(f.func, args, kwargs)
         if isinstance(f, Func):
             cc = self.call_contracts.get(f.qualname)
-            if cc is not None and f.qualname not in self.current_func:
-                return cc(self, f, list(args), dict(kwargs))
+            if cc is not None and (f.qualname not in self.current_func
+                                   or f.qualname in getattr(self, "recursive_contracts", ())):
+                if self.current_func or f.qualname not in getattr(self, "recursive_contracts", ()):
+                    return cc(self, f, list(args), dict(kwargs))
             return self.call_func(f, list(args), dict(kwargs))
         if isinstance(f, Class):
             return self.instantiate(f, list(args), dict(kwargs))
